@@ -213,7 +213,9 @@ def check(pid, tier):
 
 
 def _check(rep, found, runs, tier):
+    global TLC_TIMEOUT
     thorough = tier == "thorough"
+    TLC_TIMEOUT = 7200 if thorough else 3000          # a timeout is a MachineryError (exit 2), never a violation
     rng = random.Random(seed() * 7919 + 17)
     nprng = np.random.default_rng(seed() * 7919 + 17)
     workers = int(os.environ.get("VERIF_TLC_WORKERS", "4"))
